@@ -25,8 +25,8 @@ Theorem C05_later_appends_do_not_disturb : forall P a b,
 Proof. exact prefix_stable. Qed.
 Print Assumptions C05_later_appends_do_not_disturb.
 
-(* the reader as a state machine (Next / partial Read / skip of the unread rest): for every list of non-empty
-   events, every payload size, every context in the stream and EVERY sequence of calls, the reader on the
+(* the reader as a state machine (Next / partial Read / skip of the unread rest): for every list of
+   events (also events without contents: the code before fix D29 got stuck behind one), every payload size, every context in the stream and EVERY sequence of calls, the reader on the
    bytes reports the same sizes and returns the same bytes as the same calls on the list of events *)
 Theorem C05_reader_refines_events : forall P pre evs post ops,
   Forall okev evs ->
